@@ -146,6 +146,7 @@ class Ctx:
     def __init__(self, variables=None, rng=None):
         self.vars = variables or {}
         self.rng = rng
+        self.div_by_zero = False     # set when a division by (signed) zero was evaluated: the result's sign depends on the sign of zero
 
 
 FUNCS = {}
@@ -287,7 +288,8 @@ def _min(c, a):
     if not v:
         raise Malformed("min()")
     if any(x != x for x in v):
-        return "NAN-ORDER"
+        c.div_by_zero = True     # (re-using the 'not judged' flag) min/max over NaN depends on the NaN's sign bit
+        return math.nan
     return min(v, key=lambda x: (x, math.copysign(1.0, x)))     # total order: -0.0 < +0.0
 
 
@@ -297,7 +299,8 @@ def _max(c, a):
     if not v:
         raise Malformed("max()")
     if any(x != x for x in v):
-        return "NAN-ORDER"
+        c.div_by_zero = True     # (re-using the 'not judged' flag) min/max over NaN depends on the NaN's sign bit
+        return math.nan
     return max(v, key=lambda x: (x, math.copysign(1.0, x)))
 
 
@@ -585,6 +588,7 @@ def eval_tree(t, c):
             return f32(l * r)
         if op == "/":
             if r == 0:
+                c.div_by_zero = True
                 if l == 0 or l != l:
                     return math.nan
                 return math.copysign(math.inf, l) * math.copysign(1.0, r)
